@@ -179,7 +179,7 @@ Section Close3.
   Theorem context_close_meta_err : forall s prev rest k p s1,
     nested s = prev :: rest -> is_meta s ->
     run_m fo rf (set_nested s rest) = RErr k p s1 ->
-    context_close fo rf s = RErr k p s1.
+    context_close fo rf s = RErr k p (set_nested s1 (prev :: nested s1)).
   Proof.
     intros s prev rest k p s1 En Hm Er. unfold context_close. rewrite En. cbv zeta.
     change (cx (set_nested s rest)) with (cx s). unfold is_meta in Hm. rewrite Hm, Er. reflexivity.
